@@ -4,6 +4,7 @@ package main
 // by the harness (rt.ZipEntry); entry contents are empty.
 
 import (
+	"regexp"
 	"fmt"
 	"go/types"
 )
@@ -95,6 +96,16 @@ func init() {
 			pat := "?"
 			if r := e.regexOf(args[0]); r != nil {
 				pat = r.pattern
+				// concrete subject: evaluate with the host's regexp package
+				// (same standard library, pure function of its inputs)
+				if v, ok := e.regexConcrete(m, pat, args[1:]); ok {
+					return v
+				}
+				// symbolic subject: backtracking interpreter over the compiled program
+				if v, ok := e.regexSymbolic(m, pat, args[1:]); ok {
+					e.stubsHit["regexp-interpreter:"+pat]++
+					return v
+				}
 			}
 			unsupported("regexp %s on pattern %q (no model)", m, pat)
 			return nil
@@ -104,5 +115,32 @@ func init() {
 
 // regexModels: hand-written models for specific (method, pattern) pairs.
 var regexModels = map[string]func(fr *frame, pattern string, args []Value) (Value, bool){}
+
+// regexConcrete evaluates FindString / MatchString / FindStringIndex on a
+// concrete subject.
+func (e *Exec) regexConcrete(method, pattern string, args []Value) (Value, bool) {
+	if len(args) != 1 {
+		return nil, false
+	}
+	sv, ok := args[0].(Str)
+	if !ok {
+		return nil, false
+	}
+	subject, ok := concStr(sv)
+	if !ok {
+		return nil, false
+	}
+	re, err := regexp.Compile(pattern)
+	if err != nil {
+		return nil, false
+	}
+	switch method {
+	case "FindString":
+		return e.strConst(re.FindString(subject)), true
+	case "MatchString":
+		return e.tt.Bool(re.MatchString(subject)), true
+	}
+	return nil, false
+}
 
 var _ = fmt.Sprintf
